@@ -204,7 +204,23 @@ fn zstd_compress(_data: &[u8], _level: u32) -> io::Result<Cow<[u8]>> {
 #[cfg(feature = "lz4")]
 fn lz4_decompress<R: io::Read>(data: R, out: &mut Vec<u8>) -> io::Result<()> {
     use io::Read;
-    lz4_flex::frame::FrameDecoder::new(data).read_to_end(out).map(drop)
+
+    /// Retries the reads that are interrupted: the lz4 frame decoder loses the part of
+    /// the frame header it already consumed when a read is interrupted in the middle of it.
+    struct RetryInterrupted<R>(R);
+
+    impl<R: io::Read> io::Read for RetryInterrupted<R> {
+        fn read(&mut self, buf: &mut [u8]) -> io::Result<usize> {
+            loop {
+                match self.0.read(buf) {
+                    Err(e) if e.kind() == io::ErrorKind::Interrupted => continue,
+                    result => return result,
+                }
+            }
+        }
+    }
+
+    lz4_flex::frame::FrameDecoder::new(RetryInterrupted(data)).read_to_end(out).map(drop)
 }
 
 #[cfg(not(feature = "lz4"))]
